@@ -1,9 +1,9 @@
 (* Proofs for C15: the mirror Model.Dom computes dominators, immediate
    dominators, dominator-tree children and dominance frontiers as defined in
    Spec.DomSpec, for every rooted graph. *)
-Require Import Model.Dom Spec.DomSpec.
-From stdpp Require Import list list_numbers.
 From Coq Require Import ZArith Lia.
+From stdpp Require Import list list_numbers sets.
+Require Import Model.Dom Spec.DomSpec.
 
 Global Instance node_inhabited : Inhabited node := populate (Node [] []).
 
